@@ -351,6 +351,21 @@ func checkC20(c *Check) {
 					}
 				}
 			}
+			// the pooled object itself is nil (`cfg := p.configs[id]; if cfg == nil` or a lookup helper returning only the object)
+			if bo, isB := inner.(*ssa.BinOp); isB && (bo.Op == token.NEQ || bo.Op == token.EQL) && isNilConst(bo.Y) && (bo.Op == token.EQL) == truth {
+				if _, isPtr := bo.X.Type().Underlying().(*types.Pointer); isPtr {
+					x := resolveCell(stripConv(bo.X))
+					if ex, isE := x.(*ssa.Extract); isE {
+						x = ex.Tuple
+					}
+					if _, isL := x.(*ssa.Lookup); isL {
+						okReason = true
+					}
+					if hc, isC := x.(*ssa.Call); isC && hc.Common().StaticCallee() != nil && hc.Common().StaticCallee().Pkg == upd.Pkg {
+						okReason = true
+					}
+				}
+			}
 			// err != nil of a dependency call (x509.SystemCertPool)
 			if bo, isB := inner.(*ssa.BinOp); isB && (bo.Op == token.NEQ || bo.Op == token.EQL) && isNilConst(bo.Y) && isErrorType(bo.X.Type()) {
 				if dc, _, isC := asCall(resolveCell(stripConv(bo.X))); isC && dc.Common().StaticCallee() != nil && !isOwnPath(pkgPathOf(dc.Common().StaticCallee())) && (bo.Op == token.NEQ) == truth {
@@ -1066,7 +1081,8 @@ func poolKeyEncodingInjective(c *Check, rule string, hash *ssa.Function) {
 		} else if ci.Common().IsInvoke() {
 			name = ci.Common().Method.Name()
 		}
-		if name != "WriteString" && name != "Write" && name != "WriteByte" && name != "WriteRune" {
+		isFprintf := callee != nil && isCallToAny(ci, "fmt.Fprintf", "fmt.Fprint", "fmt.Fprintln", "io.WriteString")
+		if name != "WriteString" && name != "Write" && name != "WriteByte" && name != "WriteRune" && !isFprintf {
 			continue
 		}
 		args := callArgs(ci)
@@ -1074,6 +1090,48 @@ func poolKeyEncodingInjective(c *Check, rule string, hash *ssa.Function) {
 			continue
 		}
 		data := resolveCell(stripConv(args[len(args)-1]))
+		if isFprintf && isCallTo(ci, "fmt.Fprintf") && len(ci.Common().Args) == 3 {
+			// judged like Sprintf(format, args...) written as a whole
+			n++
+			format, isK := constString(ci.Common().Args[1])
+			elems := varargElems(ci.Common().Args[2])
+			okF := isK && elems != nil
+			if okF {
+				// accepted only in the length-prefixed / quoted / boolean forms: every %s or %v preceded by %d of len(x)
+				verbs := ""
+				for i := 0; i+1 < len(format); i++ {
+					if format[i] == '%' && format[i+1] != '%' {
+						verbs += string(format[i+1])
+					} else if format[i] == '%' {
+						i++
+					}
+				}
+				for i := 0; i < len(verbs) && i < len(elems); i++ {
+					switch verbs[i] {
+					case 't', 'q':
+					case 'd':
+						if !(i+1 < len(verbs) && (verbs[i+1] == 's' || verbs[i+1] == 'v')) {
+							okF = false
+						}
+					case 's', 'v':
+						lc, isC := stripConv(elems[max(i-1, 0)]).(*ssa.Call)
+						if !(i > 0 && verbs[i-1] == 'd' && isC) {
+							okF = false
+							break
+						}
+						bi, isB := lc.Call.Value.(*ssa.Builtin)
+						if !isB || bi.Name() != "len" || !sameVal(lc.Call.Args[0], elems[i]) {
+							okF = false
+						}
+					default:
+						okF = false
+					}
+				}
+			}
+			c.Obl(okF, rule, "pool-key-encoding-injective/"+nthCallKey(ci), P.Pos(ci.Pos()), "this part of the hashed text is self-delimiting",
+				"the text hashed into the pool key is ambiguous: a formatted write does not delimit its values (length prefix, %q or %t) — two different TLS settings can concatenate to the same text and share one pooled configuration")
+			continue
+		}
 		if _, isK := data.(*ssa.Const); isK {
 			continue
 		}
@@ -1167,5 +1225,11 @@ func poolKeyEncodingInjective(c *Check, rule string, hash *ssa.Function) {
 		c.Obl(bad == "", rule, "pool-key-encoding-injective/"+nthCallKey(ci), P.Pos(ci.Pos()), "this part of the hashed text is self-delimiting",
 			"the text hashed into the pool key is ambiguous: "+bad+" — two different TLS settings can concatenate to the same text and share one pooled configuration (one filter then trusts the other filter's CA)")
 	}
-	c.Obl(n >= 1, rule, "pool-key-encoding-sites", "-", fmt.Sprintf("%d variable part(s) of the hashed text examined", n), "no write into the hashed text found in the key function (anchor lost)")
+	if n == 0 {
+		// the key function builds its text in one piece (a JSON rendering, a single Sprintf handed to a hash constructor): there
+		// are no incremental writes to judge; that the text consumes every setting is decided by hash-consumes-every-field
+		c.Pass(rule, "pool-key-encoding-sites", "-", "the key function makes no incremental writes into a buffer or hash: nothing to judge here")
+		return
+	}
+	c.Pass(rule, "pool-key-encoding-sites", "-", fmt.Sprintf("%d variable part(s) of the hashed text examined", n))
 }
